@@ -16,9 +16,9 @@ RULE = ("pairs of files (valid root chains in OpenPGP mode, valid delegations, e
         "each of the three entry points (console script regenerated from the current pyproject.toml, python -m conda_content_trust, python -m "
         "conda_content_trust.cli); sign-artifacts with good / bad / decorated key files and good / bad repodata; gpg-sign without its optional "
         "dependency; gpg-sign and gpg-key-lookup with the dependency stood in for by a signer with outputs fixed per case (fingerprint spellings, raising signer, "
-        "unknown key, broken / missing / re-laid-out files).  Observables: exit status, success line on stdout, file bytes.  non-trivial = a run whose files both parse; distinct by (entry point, files)")
+        "unknown key, broken / missing / re-laid-out files); the interactive modify-metadata editor driven by scripts of typed lines on stdin (choices, keys, thresholds, early end of input).  Observables: exit status, success line on stdout, file bytes.  non-trivial = a run whose files both parse; distinct by (entry point, files)")
 
-THEOREMS = ["exit_zero_iff", "verify_codes", "sign_zero_only_if_signed", "sign_bad_key_untouched", "gpg_sign_zero_iff_signed", "gpg_commands_need_dependency", "gpg_sign_end_to_end"]
+THEOREMS = ["exit_zero_iff", "verify_codes", "sign_zero_only_if_signed", "sign_bad_key_untouched", "gpg_sign_zero_iff_signed", "gpg_commands_need_dependency", "gpg_sign_end_to_end", "editLoop_writes", "edit_session_files"]
 
 REPO = os.environ.get("CCT_REPO", "/repo")
 ENTRY_POINTS = ["script", "modulePkg", "moduleCli"]
@@ -374,3 +374,110 @@ def run(ck: Check) -> None:
             ck.mismatch_kinds[kk] = ck.mismatch_kinds.get(kk, 0) + 1
             if len(ck.mismatches) < 12:
                 ck.mismatches.append({"corr": "corr:cli-gpg-sign/exit-status+file", "line": glines[2 * gi + 1][:800], "impl": f"exit={rc2} printed={printed}", "model": m2[:300], "tag": "lookup:" + kind, "meta": {"stderr": err2[-200:]}, "stdout_encoding": "utf-8"})
+
+    # the interactive modify-metadata editor against its model (Model/CliEdit.lean): scripts of typed lines on stdin; exit status and every file written
+    import subprocess as _sp
+    ed_dir = os.path.join(d, "edit")
+    os.makedirs(ed_dir, exist_ok=True)
+    sk2 = gen.key(4)
+    def rand_script(i, has_role):
+        lines, n = [], rng.randint(1, 6)
+        for _ in range(n):
+            c = rng.choice(["0", "1", "2", "2", "7", "7", "3", "4", "5", "6", "8", "9", "x", "", "12", "-1", " 1 ", "\u0660", "1.0", "07", "+2", "1_0", "\u0667"])
+            lines.append(c)
+            v = None
+            try:
+                v = int(c)
+            except ValueError:
+                pass
+            if v == 0:
+                lines.append(f"out{i}-{len(lines)}.json")
+                break
+            if v == 1:
+                break
+            if v == 2:
+                lines.append(rng.choice([sk2.seed.hex(), sk2.seed.hex().upper(), " ".join(sk2.seed.hex()[j:j + 8] for j in range(0, 64, 8)), FPR, FPR.upper(), "F075 DD2F 6F4C B3BD 7613  4BBB 81B6 CA16 EF9C D589",
+                                         "not a key", "", sk2.seed.hex()[:-1], "ab" * 20 + "0"]))
+            if v == 7:
+                lines.append(rng.choice(["root", "key_mgr", "nope", "", "roo"]) if has_role else rng.choice(["root", "x"]))
+                if rng.random() < 0.9:
+                    lines.append(rng.choice(["2", "1", "0", "-3", "x", "", " 3 ", "\u0663", "1_0", "2.0", "10" * 30]))
+        if rng.random() < 0.2 and lines:
+            return lines[:rng.randrange(len(lines))]             # the user closes stdin in the middle
+        last = None
+        try:
+            last = int(lines[-2]) if len(lines) >= 2 and lines[-2].strip() in ("0", "\u0660") else (int(lines[-1]) if lines else None)
+        except ValueError:
+            pass
+        if last not in (0, 1) and rng.random() < 0.8:           # most sessions end properly: save or abort
+            lines += ["0", f"out{i}-end.json"] if rng.random() < 0.7 else ["1"]
+        return lines
+    ejobs, elines = [], []
+    for ei in range(ck.n(200, 48)):
+        kind = rng.choice(["root", "root", "key_mgr", "payload", "not-envelope", "odd-delegations", "not-json", "missing"])
+        doc = None
+        if kind == "root":
+            doc = gen.envelope(gen.root_md([sk2, gen.key(5)], 1, [gen.key(6)], 1, version=ei + 1))
+        elif kind == "key_mgr":
+            doc = gen.sign_env(gen.envelope(gen.delegating_md("key_mgr", {"pkg_mgr": gen.delegation([gen.key(6)], 1)})), [gen.key(6)], False)
+        elif kind == "payload":
+            doc = gen.envelope(envgen.payload(rng))
+        elif kind == "not-envelope":
+            doc = rng.choice([[1, 2], {"signed": {"delegations": {"root": {"threshold": 1}}}}, {"signatures": [], "signed": 1}, "text", None])
+        elif kind == "odd-delegations":
+            doc = gen.envelope(rng.choice([{"delegations": ["root", "key_mgr"]}, {"delegations": "root and more"}, {"delegations": {"root": 5}}, {"delegations": {"root": {"pubkeys": []}}},
+                                           {"delegations": {"root": {"threshold": "1"}}}, {"delegations": None}]))
+        fb = None if kind == "missing" else (b"{ nope" if kind == "not-json" else gen.oracle_bytes(doc))
+        script_lines = rand_script(ei, kind in ("root", "key_mgr"))
+        hdr = gen.rand_hdr(rng)
+        signed_part = doc["signed"] if isinstance(doc, dict) and "signed" in doc else None
+        canned = {"oh": hdr.hex(), "sg": sk2.sign(gen.gpg_digest(gen.oracle_bytes(signed_part), hdr)).hex(), "q": sk2.hex} if rng.random() < 0.8 else {"oh": None, "sg": None, "q": None}
+        ejobs.append((ei, kind, fb, script_lines, canned))
+        def tok(v):
+            return proto.enc(v) if v is not None else "n"
+        elines.append(f"gpg cliedit {'f' if ei % 5 == 0 else 't'} {tok(canned['oh'])} {tok(canned['sg'])} {tok(canned['q'])} " + ("-" if fb is None else "x" + fb.hex()) + " " + proto.enc(script_lines))
+    emodel = ck.driver.run(elines, list(range(len(elines))))
+    ck.correspondences.add("corr:cli-modify-metadata/exit-status+files-written")
+    def run_session(job):
+        ei, kind, fb, script_lines, canned = job
+        wd = os.path.join(ed_dir, f"w{ei}")
+        os.makedirs(wd, exist_ok=True)
+        for f_ in os.listdir(wd):
+            os.unlink(os.path.join(wd, f_))
+        src = os.path.join(wd, "in.json")
+        if fb is not None:
+            with open(src, "wb") as f:
+                f.write(fb)
+        import json as _json
+        env = dict(os.environ, PYTHONPATH=REPO + os.pathsep + SITECUSTOM, PYTHONDONTWRITEBYTECODE="1", PYTHONIOENCODING="utf-8", CCTV_GPG_CANNED=_json.dumps(canned))
+        if ei % 5 == 0:
+            env["CCTV_NO_SSLIB"] = "1"          # sessions without the optional dependency
+            env.pop("CCTV_GPG_CANNED")
+        return _sp.run([sys.executable, "-m", "conda_content_trust", "modify-metadata", src], input=("\n".join(script_lines) + ("\n" if script_lines else "")).encode("utf-8", "surrogatepass"),
+                       env=env, cwd=wd, stdout=_sp.PIPE, stderr=_sp.PIPE, timeout=120)
+    with ThreadPoolExecutor(max_workers=16) as ex:
+        procs = list(ex.map(run_session, ejobs))
+    for (ei, kind, fb, script_lines, canned), m, p in zip(ejobs, emodel, procs):
+        wd = os.path.join(ed_dir, f"w{ei}")
+        src = os.path.join(wd, "in.json")
+        ck.evaluations += 1
+        ck.count(f"modify-metadata:{kind}:exit{p.returncode}")
+        written = {f_: open(os.path.join(wd, f_), "rb").read() for f_ in sorted(os.listdir(wd)) if f_ != "in.json"}
+        src_after = open(src, "rb").read() if os.path.exists(src) else None
+        mexit = int(m.split("exit=")[1].split(" ")[0]) if "exit=" in m else -1
+        mw = {}
+        wpart = m.split("writes=")[1] if "writes=" in m else ""
+        for item in [x for x in wpart.split(";") if x]:
+            nm, hx = item.split(":")
+            mw[proto.dec(nm)] = bytes.fromhex(hx)
+        ck.nontrivial_add(("edit", ei, kind, tuple(script_lines)))
+        ck.oracle_checks += 1
+        if src_after != fb:
+            ck.violation("modify-metadata changed the file it was asked to read (it writes only where the user says)", {"case": kind, "script": script_lines}, "cli-edit-source-modified")
+        if mexit != p.returncode or mw != written:
+            ck.mismatch_total += 1
+            kk = f"cli-edit:{kind}:impl={p.returncode}:model={mexit}:files={sorted(written)}vs{sorted(mw)}"
+            ck.mismatch_kinds[kk] = ck.mismatch_kinds.get(kk, 0) + 1
+            if len(ck.mismatches) < 12:
+                ck.mismatches.append({"corr": "corr:cli-modify-metadata/exit-status+files-written", "line": elines[ei][:1200], "impl": f"exit={p.returncode} files={ {k: v[:60].hex() for k, v in written.items()} }",
+                                      "model": m[:400], "tag": kind, "meta": {"script": script_lines, "stderr": p.stderr.decode("utf-8", "replace")[-300:]}, "stdout_encoding": "utf-8"})
